@@ -26,6 +26,7 @@ EXPLANATION = (
     "names first and __contains__ maps exactly UndefinedUnitError to False. Does not decide the cross product of "
     "spellings or collisions (data dependent).")
 EXPLANATION += ' Also decided (rules added after the second round of seeded changes): on every path of _helper_single_adder that stores a spelling the spelling is also indexed (local aliases of the unit table resolved at the call sites).'
+EXPLANATION += ' Also decided (round 8): the sort key that puts the spelling as written first compares with the same stem whose lower-cased form was looked up in the case-insensitive index.'
 
 
 
